@@ -181,7 +181,7 @@ def main(chk, replay_file):
         J("hex_clock.cover", unit, "h_cover", unwind=4, kind="cover", cover=True, checks=[]),
     ]
     if tier == "thorough":
-        jobs.append(J("hex_clock.contract@cvc5", unit, "h_clock", unwind=4, solver=["--cvc5"], timeout=3000, note="second back end"))
+        jobs.append(J("hex_clock.contract@kissat", unit, "h_clock", unwind=4, solver=["--external-sat-solver", "kissat"], stop_on_fail=True, timeout=3000, note="second back end: kissat (CBMC's SMT2 conversion aborts with map::at on the Verilator units, so cvc5/z3 are unusable here)"))
     chk.jobs = jobs
     hv.run_jobs(jobs, chk.out)
     exe = native(chk)
